@@ -339,9 +339,11 @@ def rule_p(ck, prog, mg, gs):
                     continue
                 if not any(e.variant == "UnconsumedBytes" for e in gd.errs):
                     continue
-                cb = c.node[0]
-                w = g.walk(ops=[c.call["args"][0]], at=(cb, T))
-                if ("c", b) in w:
+                # the decision must be about this very reader: its receiver is a reference to the local
+                # that holds the SliceReader created at block b
+                rl = t["dest"]["l"]
+                al = op_local(c.call["args"][0])
+                if al is not None and (al == rl or rl in g.ref_of.get(al, ())):
                     sites.append((gd.block, T))
             ok = False
             if sites:
